@@ -116,7 +116,7 @@ def make_action_labels(rng, m):
 def random_spec(rng, family="any", n_max=8, a_max=4, label_kind=None, uniform_actions=False,
                 allow_zero_entries=True, allow_live_absorbing=True, gamma=None,
                 reward_sign=None, min_states=1, allow_dup_actions=True, allow_implicit=True,
-                near_absorbing=False):
+                near_absorbing=False, reward_scale=1.0, trap_entry=False):
     """families:
        any        gamma<1, arbitrary structure, rewards of either sign
        proper     every policy reaches an absorbing state w.p.1 (hidden rank order), any gamma
@@ -167,7 +167,7 @@ def random_spec(rng, family="any", n_max=8, a_max=4, label_kind=None, uniform_ac
                 kinds += ["live", "live"]
             abs_kind[i] = rng.choice(kinds)
     trap = set()
-    if family == "sspneg" and n - n_abs >= 3 and rng.random() < 0.3:
+    if family == "sspneg" and n - n_abs >= 3 and rng.random() < (0.6 if trap_entry else 0.3):
         # a disconnected trap component (cannot reach absorption; only enterable via init)
         k = rng.randint(1, 2)
         trap = set(idx[:k])
@@ -275,6 +275,26 @@ def random_spec(rng, family="any", n_max=8, a_max=4, label_kind=None, uniform_ac
                 sp.R[(s, a, s)] = 0.0
                 sp.R[(s, a, t)] = 0.0
             sp.meta["near_absorbing"] = repr(s)
+    if trap and trap_entry:
+        # a costly one-way action from the solvable part into the trap component: never optimal (its cost
+        # exceeds any finite optimal value), but it makes the trap *enterable*, so "cannot reach an absorbing
+        # state" is no longer the same thing as "disconnected from the rest"
+        cand = [i for i in idx if i not in absorbing and i not in trap]
+        if cand:
+            i = rng.choice(cand)
+            s = states[i]
+            free = [a for a in alabels if a not in sp.acts[s]] or ["pit"]
+            a = free[0]
+            sp.acts[s] = tuple(sp.acts[s]) + (a,)
+            t = states[rng.choice(sorted(trap))]
+            sp.P[(s, a)] = [(t, 1.0)]
+            sp.kind[(s, a)] = rng.choice(["dict", "det"])
+            sp.R[(s, a, t)] = -1000.0
+            sp.meta["trap_entry"] = (repr(s), repr(a))
+    if reward_scale != 1.0:
+        for key in sp.R:
+            sp.R[key] = sp.R[key] * reward_scale
+        sp.meta["reward_scale"] = reward_scale
     sp.flag = {states[i] for i in absorbing if abs_kind[i] in ("zero", "live")}
     sp.meta["abs_kinds"] = sorted(abs_kind.values())
     sp.meta["trap"] = len(trap)
